@@ -41,6 +41,11 @@ type target struct {
 type family struct {
 	name string
 	gen  func(thorough bool, emit func(b []byte, note string))
+	// lazy variant for large structured families whose inputs are expensive to build: emit is called once per case in a
+	// fixed order with the case's feature (appended to the violation key) and a builder that is only run for the cases of
+	// this shard; after is called with the outcome of every evaluated case
+	lazy  func(c *hl.Ctx, emit func(feature string, build func() ([]byte, string)))
+	after func(c *hl.Ctx, feature string, b []byte, o outcome)
 }
 
 type pump struct {
@@ -68,15 +73,20 @@ type outcome struct {
 }
 
 type c07case struct {
-	Target string `json:"target"`
-	Hex    string `json:"hex"`
-	Note   string `json:"note,omitempty"`
+	Target  string `json:"target"`
+	Hex     string `json:"hex"`
+	Note    string `json:"note,omitempty"`
+	Feature string `json:"feature,omitempty"` // structured families: the rewritten member (part of the violation key)
 }
 
 type engine struct {
 	c      *hl.Ctx
 	idx    int
 	stalls map[string]int // per target: after 3 stalls the rest of the target's sweep is abandoned (each stall burns the whole horizon)
+	// feature of the structured case being evaluated ("" outside lazy families): appended to the violation key
+	feature string
+	// panic site of the valid object the current structured cases are rewrites of ("" = it does not panic)
+	baseSite string
 }
 
 func fullHex(b []byte) string {
@@ -100,7 +110,12 @@ func (e *engine) try(t *target, b []byte, note string) outcome {
 	o := runOneWithSite(t, b)
 	c.Case("", nil)
 	if o.panicked {
-		c.Violation("panic/"+t.name+"/"+o.site, fmt.Sprintf("decoder %s panicked in %s: %s; input (%d bytes, %s): %s", t.name, o.site, o.msg, len(b), note, hl.Hex(b)), c07case{Target: t.name, Hex: fullHex(b), Note: note})
+		site, feat := o.site, ""
+		if e.feature != "" && e.feature != "valid" && o.site != e.baseSite {
+			feat = e.feature
+			site += "/" + feat
+		}
+		c.Violation("panic/"+t.name+"/"+site, fmt.Sprintf("decoder %s panicked in %s: %s; input (%d bytes, %s): %s", t.name, o.site, o.msg, len(b), note, hl.Hex(b)), c07case{Target: t.name, Hex: fullHex(b), Note: note, Feature: feat})
 	} else if o.alloc > 0 {
 		c.Violation("alloc-declared-size/"+t.name, fmt.Sprintf("decoder %s sized an allocation from the input: a request for %d elements took the declared-size allocations of this call to %d (budget %d = 48 MiB + 256 per input byte) on a %d-byte input (%s): %s", t.name, o.allocReq, o.alloc, allocLimitFor(len(b)), len(b), note, hl.Hex(b)), c07case{Target: t.name, Hex: fullHex(b), Note: note})
 	} else if o.stalled {
@@ -220,6 +235,10 @@ func (e *engine) sweepTarget(t *target) {
 	}
 	// 2b. structured families
 	for _, f := range t.families {
+		if f.lazy != nil {
+			e.sweepLazy(t, f)
+			continue
+		}
 		n := 0
 		f.gen(c.Thorough(), func(b []byte, note string) {
 			if n%512 == 0 {
@@ -272,6 +291,57 @@ func (e *engine) sweepTarget(t *target) {
 		}
 		c.Nontrivial(t.name + "/pump/" + p.name)
 	}
+}
+
+// sweepLazy evaluates a lazy family: cases are dealt to the shards in blocks of 64 consecutive cases. A case with the
+// feature "valid" is the unmodified object the following cases are rewrites of: every shard runs it (counted only by
+// the shard that owns it) to learn whether it already panics; rewrites that panic at the same site then share the key of
+// the valid object instead of getting one key per rewritten member.
+func (e *engine) sweepLazy(t *target, f family) {
+	c := e.c
+	n, mine, stop := 0, 0, false
+	f.lazy(c, func(feature string, build func() ([]byte, string)) {
+		if n%64 == 0 {
+			e.idx++
+		}
+		n++
+		if stop {
+			return
+		}
+		if feature == "valid" {
+			e.baseSite = ""
+			if !c.Mine(e.idx) {
+				b, _ := build()
+				if o := runOneWithSite(t, b); o.panicked {
+					e.baseSite = o.site
+				}
+				return
+			}
+		}
+		if !c.Mine(e.idx) {
+			return
+		}
+		mine++
+		if mine%1024 == 0 && c.Expired() {
+			stop = true
+			return
+		}
+		b, note := build()
+		if mine == 1 || mine == 1500 {
+			c.Sample(map[string]interface{}{"target": t.name, "family": f.name, "case": note, "input": string(b)})
+		}
+		e.feature = feature
+		o := e.try(t, b, "family "+f.name+": "+note)
+		e.feature = ""
+		if feature == "valid" && o.panicked {
+			e.baseSite = o.site
+		}
+		if f.after != nil {
+			f.after(c, feature, b, o)
+		}
+	})
+	e.baseSite = ""
+	c.Info("family/"+t.name+"/"+f.name, n)
 }
 
 // ---------------------------------------------------------------- enum helpers
@@ -350,8 +420,8 @@ func enumHelpers(c *hl.Ctx) {
 }
 
 func run(c *hl.Ctx) {
-	c.Rule("per decoder entry point: every byte string of length <= 2 (thorough 3; cheap decoders); for every seed (valid encodings produced by the reference models and the library's own encoders): every truncation prefix, every single-position substitution by {00,01,7f,80,ff} and all 256 values in the first 12 positions; structured families (RTMP: every sequence of up to 3 (thorough 4) chunk headers over 54 header shapes - all four header formats, two chunk streams, lengths around the chunk size, extended timestamps, Set Chunk Size messages - legal and illegal transitions alike; FLV tag bodies: every pair of leading bytes x every length 2..9); pumped families 256 B .. 64 KiB with the cost measured in instrumented steps (function entries, loop iterations, weighted bytes/strings/copy calls; deterministic); every value of every enum helper via reflection. Violation = recovered panic, step horizon exceeded, real-time watchdog (120 s), step count growing faster than linearly, or declared-size allocations (every make(T, n) / Grow(n) in the instrumented packages is accounted before it happens) above 48 MiB + 256 elements per input byte in one call. Non-trivial = distinct (decoder, input) evaluated.")
-	c.Assume("time inside the Go standard library (asn1, flate, big, json) is not counted in steps", "the websocket reader's deliberate panic after 1000 reads of a failed connection is API-misuse signalling and not reachable by a harness that stops at the first error", "inputs above 64 KiB and coverage-guided/random inputs are replaced by the exhaustive families named in the rule")
+	c.Rule("per decoder entry point: every byte string of length <= 2 (thorough 3; cheap decoders); for every seed (valid encodings produced by the reference models and the library's own encoders): every truncation prefix, every single-position substitution by {00,01,7f,80,ff} and all 256 values in the first 12 positions; structured families (RTMP: every sequence of up to 3 (thorough 4) chunk headers over 54 header shapes - all four header formats, two chunk streams, lengths around the chunk size, extended timestamps, Set Chunk Size messages - legal and illegal transitions alike; FLV tag bodies: every pair of leading bytes x every length 2..9; JOSE (family jose-structured): a valid JWE for every implemented key-management algorithm (dir, A128/192/256KW, A128/192/256GCMKW, RSA1_5, RSA-OAEP, RSA-OAEP-256, ECDH-ES and ECDH-ES+A128/192/256KW on P-256, some on P-384/P-521) x content encryptions (quick: A128GCM and A192CBC-HS384, all six for dir and ECDH-ES; thorough: all six; two objects with zip=DEF) and a valid JWS for each of the 12 signature algorithms, built by hand with fixed keys, each in every serialisation layout (compact; flattened JSON with the members protected / in the per-recipient header / in the shared unprotected header / with no protected header; general JSON with one and with two recipients or signatures), then exactly one rewrite: one header member of {alg enc zip crit apu apv epk iv tag jwk kid nonce p2s p2c b64 typ x} in one header location (protected - once with the tag/signature left stale, once re-sealed/re-signed over the rewritten header - unprotected, each per-recipient/per-signature header) := one value of its alphabet (base64url members: absent, empty, 1, right-1, right+1, 12, 16, 64 bytes, right length with a flipped bit / all 00 / all ff, three non-base64url strings, number object array null true array-of-string; names: absent, empty, every registered name, unknown, lower case, wrong types; crit: 12 shapes; epk/jwk: 36 JWK shapes), or one member {kty crv x y d n e k x5c kid} of the epk / of an embedded jwk over the same alphabets, or one serialisation part {protected, unprotected, header, recipients/signatures and their elements' members, encrypted_key, iv, ciphertext, tag, aad, payload, signature; compact: each segment, segment count} over the same alphabets; thorough: more lengths (8..1024) and every pair of rewrites of two different members in the location of the key-management members over a reduced alphabet; every input goes through ParseEncrypted+Decrypt with every key kind (16/24/32/48/64-byte secrets, RSA, P-256/384/521) or ParseSigned+Verify likewise); pumped families 256 B .. 64 KiB with the cost measured in instrumented steps (function entries, loop iterations, weighted bytes/strings/copy calls; deterministic); every value of every enum helper via reflection. Violation = recovered panic, step horizon exceeded, real-time watchdog (120 s), step count growing faster than linearly, or declared-size allocations (every make(T, n) / Grow(n) in the instrumented packages is accounted before it happens) above 48 MiB + 256 elements per input byte in one call. Non-trivial = distinct (decoder, input) evaluated; in the family jose-structured: distinct input that the parser accepted, so that Decrypt / Verify ran on it (counters jose_structured_parsed / _accepted; every hand-built valid object must be accepted: jose_structured_valid_objects vs jose_structured_valid_objects_rejected).")
+	c.Assume("time inside the Go standard library (asn1, flate, big, json) is not counted in steps", "the websocket reader's deliberate panic after 1000 reads of a failed connection is API-misuse signalling and not reachable by a harness that stops at the first error", "inputs above 64 KiB and coverage-guided/random inputs are replaced by the exhaustive families named in the rule", "the JOSE test keys are fixed (one embedded 2048-bit RSA key, EC scalars derived from labels); the valid objects of the family jose-structured are built with the reference primitives of verif/ref/joseref and crypto/rsa with a constant byte stream as randomness - they only provide starting points, no verdict depends on them (a valid object the library rejects is counted, not reported)")
 	c.StartWatchdog(120 * time.Second)
 	e := &engine{c: c}
 	if c.Shard == 0 {
@@ -392,8 +462,12 @@ func replay(c *hl.Ctx, raw json.RawMessage) {
 		}
 		var b []byte
 		fmt.Sscanf(cs.Hex, "%x", &b)
-		e := &engine{c: c}
-		e.try(&ts[i], b, "replay")
+		e := &engine{c: c, feature: cs.Feature}
+		note := "replay"
+		if cs.Note != "" {
+			note = "replay of: " + cs.Note
+		}
+		e.try(&ts[i], b, note)
 	}
 }
 
